@@ -35,7 +35,8 @@ ASSUMPTIONS = ['expected function = real dense-time offline monitor on the whole
                'envelope rules exclude the regions of the open known findings']
 REAL = common.REAL_ALL
 STUBS = common.STUBS_ALL
-PROBES = ['sensors_start_at_different_instants', 'cut_at_window_edge', 'empty_batch', 'pastified', 'skewed_schedule', 'one_sample_batches', 'schedules_enumerated_exhaustively']
+PROBES = ['sensors_start_at_different_instants', 'cut_at_window_edge', 'empty_batch', 'pastified', 'skewed_schedule', 'one_sample_batches', 'schedules_enumerated_exhaustively',
+          'epoch_time_stamps']
 INTERLEAVING_MEASURE = 'distinct chunking patterns (per variable: tuple of batch sizes per update)'
 ENVELOPE_RULES = ['memory-past-above-delayed (F08)',
                   'bounded-op-nonzero-start (F14a): offline comparison skipped, schedules still compared']
@@ -78,8 +79,9 @@ def _gen(rng, tier):
     pastify = any(x[0] in sg.FUTURE_OPS for x in sg.walk(ast)) or rng.random() < 0.1
     signals = {}
     late = rng.random() < 0.3          # sensors that come up at different instants
+    epoch_q = 4 * 1700000000 if rng.random() < 0.1 else 0     # stamps are wall-clock seconds since 1970 (still exact quarters)
     for v in vars_:
-        s, _ = world.gen_dense_signal(rng, rng.randint(2, 12 if big else 8), start_q=(rng.randint(0, 6) if late else 0), max_gap_q=rng.choice([2, 4, 6]))
+        s, _ = world.gen_dense_signal(rng, rng.randint(2, 12 if big else 8), start_q=epoch_q + (rng.randint(0, 6) if late else 0), max_gap_q=rng.choice([2, 4, 6]))
         signals[v] = s
     text = common.dense_text(ast, sg.Spelling(rng))
     # skewed schedules: per variable independent cut points, realised as rounds
@@ -207,6 +209,8 @@ def run(sc):
         r.probes['schedules_enumerated_exhaustively'] += 1
     if sc.get('pastify'):
         r.probes['pastified'] += 1
+    if any(sc['signals'][v][0][0] > 1e9 for v in sc['signals']):
+        r.probes['epoch_time_stamps'] += 1
     edges = set()
     for x in sg.walk(ast):
         if x[0] in sg.TUN + sg.TBIN:
